@@ -1667,6 +1667,21 @@ def tidy_blocks(fn: ast.FunctionDef) -> bool:
             if len(simple) != 1 or not const_assign(simple[0]) or len(other) < 2:
                 continue
             T, K = simple[0].targets[0].id, simple[0].value
+            # the other arm initialises T itself with the same constant, at its own top level, before any use of T
+            own = [x for x in other if const_assign(x, T)]
+            if len(own) == 1 and ast.dump(own[0].value) == ast.dump(K) and type(own[0].value.value) is type(K.value):
+                idx = other.index(own[0])
+                before = other[:idx]
+                plain_T = [x for x in stores_in(other, T) if not isinstance(x, ast.AugAssign)]
+                if len(plain_T) == 1 and not any(isinstance(y, ast.Name) and y.id == T for b_ in before for y in ast.walk(b_)) \
+                        and not any(isinstance(y, ast.Name) and y.id == T for y in ast.walk(st.test)) and \
+                        not any(isinstance(b_, (ast.Return, ast.Raise, ast.Break, ast.Continue)) for b_ in before):
+                    body = [x for x in other if x is not own[0]]
+                    test = ast.UnaryOp(op=ast.Not(), operand=st.test) if negate else st.test
+                    if negate and isinstance(st.test, ast.UnaryOp) and isinstance(st.test.op, ast.Not):
+                        test = st.test.operand
+                    return [ast.copy_location(ast.Assign(targets=[ast.Name(id=T, ctx=ast.Store())], value=K), st),
+                            ast.copy_location(ast.If(test=test, body=body or [ast.Pass()], orelse=[]), st)]
             last = other[-1]
             if not (isinstance(last, ast.Assign) and len(last.targets) == 1 and isinstance(last.targets[0], ast.Name) and
                     last.targets[0].id == T and isinstance(last.value, ast.Name)):
@@ -1794,6 +1809,27 @@ def tidy_blocks(fn: ast.FunctionDef) -> bool:
                     out.append(st)
                     i += 1
                     continue
+            # T = E ; X op= T   (T read nowhere else)   is   X op= E
+            nx_ = stmts[i + 1] if i + 1 < len(stmts) else None
+            if isinstance(st, ast.Assign) and len(st.targets) == 1 and isinstance(st.targets[0], ast.Name) and \
+                    isinstance(nx_, (ast.AugAssign, ast.Assign)) and isinstance(nx_.value, ast.Name) and \
+                    nx_.value.id == st.targets[0].id:
+                T = st.targets[0].id
+                tgt_ = nx_.target if isinstance(nx_, ast.AugAssign) else nx_.targets[0]
+                loads_T = sum(1 for y in ast.walk(fn) if isinstance(y, ast.Name) and y.id == T and isinstance(y.ctx, ast.Load))
+                stores_T = sum(1 for y in ast.walk(fn) if isinstance(y, ast.Name) and y.id == T and isinstance(y.ctx, ast.Store))
+                if isinstance(tgt_, ast.Name) and tgt_.id != T and loads_T == stores_T and \
+                        not any(isinstance(y, ast.Name) and y.id == tgt_.id for y in ast.walk(st.value)) and \
+                        all(isinstance(a_, ast.Assign) for a_ in ast.walk(fn)
+                            if isinstance(a_, (ast.Assign, ast.AugAssign, ast.For, ast.comprehension, ast.NamedExpr)) and
+                            any(isinstance(y, ast.Name) and y.id == T and isinstance(y.ctx, ast.Store)
+                                for y in ast.walk(a_.targets[0] if isinstance(a_, ast.Assign) else a_.target))):
+                    merged = copy.copy(nx_)
+                    merged.value = st.value
+                    out.append(ast.copy_location(merged, nx_))
+                    changed[0] = True
+                    i += 2
+                    continue
             # a loop over an empty literal does nothing
             if isinstance(st, ast.For) and isinstance(st.iter, (ast.Tuple, ast.List)) and not st.iter.elts and not st.orelse:
                 changed[0] = True
@@ -1890,7 +1926,9 @@ def tidy_blocks(fn: ast.FunctionDef) -> bool:
                         (isinstance(st.value, ast.Name) and st.value.id in defs_) or isinstance(st.value, ast.Lambda) or
                         (isinstance(st.value, ast.Constant) and st.targets[0].id == '_') or
                         (isinstance(st.value, (ast.IfExp, ast.Attribute)) and _pure_simple(st.value) and
-                         not any(isinstance(y, ast.Call) for y in ast.walk(st.value)))):
+                         not any(isinstance(y, ast.Call) for y in ast.walk(st.value))) or
+                        (isinstance(st.value, ast.Tuple) and all(isinstance(e, (ast.Name, ast.Constant))
+                                                                 for e in st.value.elts))):
                 return True
             return False
 
@@ -1937,8 +1975,10 @@ def propagate_callable_locals(fn: ast.FunctionDef, helper_names) -> bool:
                 not isinstance(v.body, ast.Tuple) and not isinstance(v.orelse, ast.Tuple)
         if isinstance(v, ast.Lambda):
             return True
-        if isinstance(v, ast.Tuple) and v.elts and all(callable_value(e) for e in v.elts):
-            return True       # a row of function values / constants
+        if isinstance(v, ast.Tuple) and v.elts and all(callable_value(e) or isinstance(e, (ast.Name, ast.Constant)) or
+                                                       (_pure_simple(e) and not isinstance(e, ast.Tuple))
+                                                       for e in v.elts):
+            return True       # a row of function values / constants / plain names
         if isinstance(v, ast.Constant) and (v.value is None or isinstance(v.value, (bool, str))):
             return True
         if isinstance(v, ast.Call) and isinstance(v.func, ast.Name) and v.func.id == '__no_such_key__':
@@ -2012,8 +2052,32 @@ def propagate_generator_locals(fn: ast.FunctionDef, gen_names) -> bool:
                 isinstance(st.value.func, ast.Name) and st.value.func.id in gen_names and \
                 all(_pure_simple(a) for a in list(st.value.args) + [kw.value for kw in st.value.keywords])
             # a generator expression over something cheap to read, consumed exactly once later on
-            is_genexp = isinstance(st, ast.Assign) and isinstance(st.value, ast.GeneratorExp) and \
-                _pure_simple(st.value.generators[0].iter) and len(st.targets) == 1 and \
+            def lazy_(e):
+                if isinstance(e, ast.GeneratorExp):
+                    return _pure_simple(e.generators[0].iter) or lazy_(e.generators[0].iter)
+                if isinstance(e, ast.Call) and ((isinstance(e.func, ast.Name) and e.func.id.lstrip('_') == 'chain') or (
+                        isinstance(e.func, ast.Attribute) and e.func.attr == 'chain')) and e.args and not e.keywords:
+                    return all(lazy_(a) or _pure_simple(a) for a in e.args)
+                return False
+            def eager_ok_():
+                # a list comprehension is evaluated where it is written: it may be read at its single use (the iterable of
+                # a later `for`) only when nothing but function definitions and constant bindings lies in between
+                if not (isinstance(st.value, ast.ListComp) and _pure_simple(st.value.generators[0].iter) or
+                        (isinstance(st.value, ast.ListComp) and isinstance(st.value.generators[0].iter, ast.Call) and
+                         isinstance(st.value.generators[0].iter.func, ast.Name) and
+                         st.value.generators[0].iter.func.id == 'map')):
+                    return False
+                for later in stmts[k + 1:]:
+                    if isinstance(later, ast.For) and isinstance(later.iter, ast.Name) and \
+                            later.iter.id == st.targets[0].id:
+                        return True
+                    if isinstance(later, ast.FunctionDef) or (isinstance(later, ast.Assign) and
+                                                              isinstance(later.value, ast.Constant)):
+                        continue
+                    return False
+                return False
+            is_genexp = isinstance(st, ast.Assign) and len(st.targets) == 1 and \
+                isinstance(st.targets[0], ast.Name) and (lazy_(st.value) or eager_ok_()) and \
                 isinstance(st.targets[0], ast.Name) and sum(
                     1 for y in ast.walk(fn) if isinstance(y, ast.Name) and y.id == st.targets[0].id and
                     isinstance(y.ctx, ast.Load)) == 1
@@ -2021,7 +2085,7 @@ def propagate_generator_locals(fn: ast.FunctionDef, gen_names) -> bool:
                     counts.get(st.targets[0].id) == 1 and (is_helper_gen or is_genexp):
                 x, v = st.targets[0].id, st.value
                 free = {y.id for y in ast.walk(v) if isinstance(y, ast.Name)}
-                if isinstance(v, ast.GeneratorExp):      # its own variables are not free
+                if isinstance(v, (ast.GeneratorExp, ast.ListComp)):      # its own variables are not free
                     free -= {y.id for g_ in v.generators for y in ast.walk(g_.target) if isinstance(y, ast.Name)}
                 rest = stmts[k + 1:]
                 if not any(isinstance(y, ast.Name) and isinstance(y.ctx, ast.Store) and y.id in free
@@ -2073,6 +2137,13 @@ def functional_to_loops(fn: ast.FunctionDef, helper_names=()) -> bool:
                 lam, it, init = st.value.args
                 x = st.targets[0].id
                 acc, v = lam.args.args[0].arg, lam.args.args[1].arg
+                if any(isinstance(y, ast.Name) and y.id == x for y in ast.walk(lam.body)) and x not in (acc, v):
+                    # a comprehension variable inside the lambda carries the name of the target: renamed first
+                    al_ = _Alpha({x}, '_inner')
+                    lam2 = copy.deepcopy(lam)
+                    lam2.body = al_.visit(lam2.body)
+                    if al_.did:
+                        lam = lam2
                 if not any(isinstance(y, ast.Name) and y.id == x for y in ast.walk(it)) and \
                         not any(isinstance(y, ast.Name) and y.id == x for y in ast.walk(lam.body)):
                     body = _Rename({}, {acc: ast.Name(id=x, ctx=ast.Load())}).visit(copy.deepcopy(lam.body))
@@ -2086,6 +2157,47 @@ def functional_to_loops(fn: ast.FunctionDef, helper_names=()) -> bool:
                         ast.fix_missing_locations(s_)
                     changed[0] = True
                     out += block(new)
+                    continue
+            # x = reduce(add, IT, INIT)  (operator.add / mul)  is  x = INIT; for v in IT: x = x + v
+            if isinstance(st, ast.Assign) and len(st.targets) == 1 and isinstance(st.targets[0], ast.Name) and \
+                    is_call(st.value, ('reduce',)) and len(st.value.args) == 3 and not st.value.keywords:
+                fn0 = st.value.args[0]
+                opn = fn0.id if isinstance(fn0, ast.Name) else fn0.attr if isinstance(fn0, ast.Attribute) and \
+                    isinstance(fn0.value, ast.Name) and fn0.value.id == 'operator' else None
+                op_ = {'add': ast.Add, 'iadd': ast.Add, 'mul': ast.Mult}.get((opn or '').lstrip('_'))
+                x = st.targets[0].id
+                if op_ is not None and not any(isinstance(y, ast.Name) and y.id == x for y in ast.walk(st.value.args[1])):
+                    v = f'{x}_term'
+                    new = [ast.Assign(targets=[ast.Name(id=x, ctx=ast.Store())], value=st.value.args[2]),
+                           ast.For(target=ast.Name(id=v, ctx=ast.Store()), iter=st.value.args[1],
+                                   body=[ast.AugAssign(target=ast.Name(id=x, ctx=ast.Store()), op=op_(),
+                                                       value=ast.Name(id=v, ctx=ast.Load()))], orelse=[])]
+                    for s_ in new:
+                        ast.copy_location(s_, st)
+                        ast.fix_missing_locations(s_)
+                    changed[0] = True
+                    out += block(new)
+                    continue
+            # for x in (E for y in IT if C): ..  /  for x in [E for ..]:   is   for y in IT: if C: x = E; ..
+            if isinstance(st, ast.For) and isinstance(st.iter, (ast.GeneratorExp, ast.ListComp)) and not st.orelse and \
+                    isinstance(st.target, ast.Name) and not _own_break(st.body) and not _own_continue(st.body):
+                ge_ = st.iter
+                bound = {y.id for g in ge_.generators for y in ast.walk(g.target) if isinstance(y, ast.Name)}
+                body_names = {y.id for b_ in st.body for y in ast.walk(b_) if isinstance(y, ast.Name)}
+                same_var = isinstance(ge_.elt, ast.Name) and ge_.elt.id == st.target.id and len(ge_.generators) == 1 and \
+                    isinstance(ge_.generators[0].target, ast.Name) and ge_.generators[0].target.id == st.target.id
+                if same_var or (not (bound & body_names) and st.target.id not in bound):
+                    body_ = ([] if same_var else
+                             [ast.Assign(targets=[ast.Name(id=st.target.id, ctx=ast.Store())], value=ge_.elt)]) + list(st.body)
+                    for gen in reversed(ge_.generators):
+                        for tst in reversed(gen.ifs):
+                            body_ = [ast.If(test=tst, body=body_, orelse=[])]
+                        body_ = [ast.For(target=gen.target, iter=gen.iter, body=body_, orelse=[])]
+                    for s_ in body_:
+                        ast.copy_location(s_, st)
+                        ast.fix_missing_locations(s_)
+                    changed[0] = True
+                    out += block(body_)
                     continue
             # `if not all(P for x in G): <leave>`  is  `for x in G: if not P: <leave>`   (any: `if any(..)`)
             if isinstance(st, ast.If) and not st.orelse and st.body and isinstance(st.body[-1], (ast.Return, ast.Raise)):
@@ -2384,8 +2496,8 @@ def normalise_module(tree: ast.Module, modname: str) -> Dict[str, List[str]]:
                     any_change = True
                 # functions defined inside this function are helpers of this function
                 local = {}
-                for st in fn.body:
-                    if isinstance(st, ast.FunctionDef) and not st.decorator_list:
+                for st in ast.walk(fn):
+                    if isinstance(st, ast.FunctionDef) and st is not fn and not st.decorator_list and st.name not in local:
                         local[st.name] = _Helper(st.name, st, None)
                 inl.helpers = dict(helpers, **local)
                 if inl.helpers and inline_function(fn, cls, inl):
